@@ -41,12 +41,21 @@ type Event struct {
 	Args []Value
 }
 
+// Thread: a recorded goroutine, run as a coroutine (its own Go goroutine, one
+// runs at a time, baton passed over resume/yield).
 type Thread struct {
+	id      int
 	fn      *FuncV
 	args    []Value
+	started bool
 	done    bool
 	running bool
+	ready   func() bool      // set while blocked: may it continue?
+	resume  chan bool        // scheduler -> thread: true continue, false abort (path over)
+	yield   chan interface{} // thread -> scheduler: nil = blocked or finished, else a panic value
 }
+
+type threadAbort struct{}
 
 type ctxInfo struct {
 	parent    int // 0 = none
@@ -98,6 +107,7 @@ type Exec struct {
 	loopFuncs  map[string]bool
 	inStep     int
 	identSeen  []*Term
+	nondetSeq  int
 
 	// happens-before race detection (vector clocks) over recorded goroutines
 	cmd          cmdEnv
@@ -180,6 +190,7 @@ func (e *Exec) resetPath(prefix []decision) {
 	e.notes = nil
 	e.output = map[string][]Value{}
 	e.inStep = 0
+	e.nondetSeq = 0
 	e.identSeen = nil
 	e.cmd = cmdEnv{flags: map[string]Value{}}
 	e.curThread = 0
@@ -203,7 +214,9 @@ type PathResult struct {
 func (e *Exec) RunPath(entry *ssa.Function, args []Value, prefix []decision) (res PathResult) {
 	e.resetPath(prefix)
 	defer func() {
-		if r := recover(); r != nil {
+		r := recover()
+		e.abortThreads()
+		if r != nil {
 			pe, ok := r.(pathEnd)
 			if !ok {
 				panic(r)
@@ -701,10 +714,18 @@ func (e *Exec) step(fr *frame, ins ssa.Instruction) {
 	case *ssa.Go:
 		c := x.Common()
 		fn, args := e.resolveCall(fr, c)
-		e.threads = append(e.threads, &Thread{fn: fn, args: args})
+		e.threads = append(e.threads, &Thread{id: len(e.threads) + 1, fn: fn, args: args})
 		e.events = append(e.events, Event{Kind: "go"})
 		e.forkClock()
 		e.wake()
+	case *ssa.MakeChan:
+		n := e.constInt(e.get(fr, x.Size))
+		e.objSeq++
+		fr.env[x] = &ChanV{c: &ChanObj{id: e.objSeq, cap: int(n), zero: e.zero(x.Type().Underlying().(*types.Chan).Elem())}}
+	case *ssa.Send:
+		e.chanSend(e.get(fr, x.Chan), e.get(fr, x.X))
+	case *ssa.Select:
+		fr.env[x] = e.selectOp(fr, x)
 	case *ssa.DebugRef:
 	default:
 		e.unsupported(fmt.Sprintf("instruction %T in %s", ins, fr.fn.Name()))
@@ -1327,6 +1348,9 @@ func (e *Exec) builtin(fr *frame, name string, c *ssa.CallCommon, args []Value) 
 		return nil
 	case "append":
 		return e.appendBuiltin(fr, c, args)
+	case "close":
+		e.chanClose(args[0])
+		return nil
 	case "print", "println":
 		return nil
 	}
@@ -1406,56 +1430,296 @@ func (e *Exec) ctxCause(id int) int {
 	return 0
 }
 
-// wake runs every recorded goroutine that is not blocked any more.  A thread
-// is run to completion at the moment it becomes runnable (the "fast watcher"
-// schedule); later schedules are equivalent to a later cancellation instant.
-func (e *Exec) wake() {
-	for ti, t := range e.threads {
-		if t.done || t.running {
-			continue
-		}
-		t.running = true
-		ev := len(e.events)
-		func() {
-			defer func() {
-				if r := recover(); r != nil {
-					if _, ok := r.(threadBlocked); ok {
-						if len(e.events) != ev {
-							panic(pathEnd{"undecided", "unsupported: goroutine has effects before it blocks"})
-						}
-						return
-					}
-					panic(r)
-				}
-			}()
-			e.events = append(e.events, Event{Kind: "thread-start"})
-			ev = len(e.events)
+// wake runs every recorded goroutine that can make progress, until none can
+// (deterministic "as soon as possible" schedule; every later schedule equals a
+// later instant of the event that woke it).  Returns whether anything ran.
+func (e *Exec) wake() bool {
+	any := false
+	for progress := true; progress; {
+		progress = false
+		for _, t := range e.threads {
+			if t.done || t.running {
+				continue
+			}
+			if t.started && t.ready != nil && !t.ready() {
+				continue
+			}
+			t.running = true
 			prev := e.curThread
-			e.curThread = ti + 1
-			defer func() { e.curThread = prev }()
-			e.invoke(t.fn, t.args)
-			t.done = true
-			e.events = append(e.events, Event{Kind: "thread-end"})
-		}()
-		if !t.done {
-			e.events = e.events[:ev-1]
+			e.curThread = t.id
+			if !t.started {
+				t.started = true
+				t.resume = make(chan bool)
+				t.yield = make(chan interface{})
+				go e.threadBody(t)
+			} else {
+				t.resume <- true
+			}
+			msg := <-t.yield
+			e.curThread = prev
+			t.running = false
+			if msg != nil {
+				panic(msg)
+			}
+			progress, any = true, true
 		}
-		t.running = false
 	}
+	return any
+}
+
+func (e *Exec) threadBody(t *Thread) {
+	defer func() {
+		if r := recover(); r != nil {
+			if _, ok := r.(threadAbort); ok {
+				return
+			}
+			t.yield <- r // re-raised by the scheduler (path end, engine error)
+		}
+	}()
+	e.events = append(e.events, Event{Kind: "thread-start"})
+	e.invoke(t.fn, t.args)
+	t.done = true
+	e.events = append(e.events, Event{Kind: "thread-end"})
+	t.yield <- nil
+}
+
+// block suspends the running SSA thread until ready() holds.
+func (e *Exec) block(ready func() bool, what string) {
+	if ready() {
+		return
+	}
+	if e.curThread == 0 {
+		for !ready() {
+			if !e.wake() {
+				panic(pathEnd{"undecided", "main goroutine blocked forever (" + what + "): deadlock in the modelled schedule"})
+			}
+		}
+		return
+	}
+	t := e.threads[e.curThread-1]
+	for !ready() {
+		t.ready = ready
+		t.yield <- nil
+		if ok := <-t.resume; !ok {
+			panic(threadAbort{})
+		}
+	}
+	t.ready = nil
+}
+
+// abortThreads ends the coroutines of a finished path.
+func (e *Exec) abortThreads() {
+	for _, t := range e.threads {
+		if t.started && !t.done && !t.running {
+			t.done = true
+			t.resume <- false
+		}
+	}
+}
+
+// ---- channels -----------------------------------------------------------------
+
+type chanItem struct {
+	v  Value
+	vc []int
+}
+
+type sendWait struct {
+	v     Value
+	vc    []int
+	taken bool
+}
+
+type ChanObj struct {
+	id     int
+	cap    int
+	buf    []chanItem
+	sendq  []*sendWait
+	closed bool
+	rel    []int
+	zero   Value
+}
+
+type ChanV struct{ c *ChanObj }
+
+func (c *ChanObj) sender() *sendWait {
+	for _, s := range c.sendq {
+		if !s.taken {
+			return s
+		}
+	}
+	return nil
+}
+
+func (e *Exec) snapVC() []int {
+	vc := append([]int(nil), e.vcs[e.curThread]...)
+	e.vcs[e.curThread][e.curThread]++
+	return vc
+}
+
+func (e *Exec) chanSend(v Value, val Value) {
+	cv, ok := v.(*ChanV)
+	if !ok {
+		e.unsupported("send on this channel value")
+	}
+	if cv.c == nil {
+		e.block(func() bool { return false }, "send on nil channel")
+	}
+	c := cv.c
+	if c.closed {
+		e.mustHold(e.st.False, "send on closed channel", "")
+	}
+	e.events = append(e.events, Event{Kind: "chan-send"})
+	if c.cap > 0 {
+		e.block(func() bool { return len(c.buf) < c.cap }, "send on full channel")
+		c.buf = append(c.buf, chanItem{copyVal(val), e.snapVC()})
+		e.wake()
+		return
+	}
+	sw := &sendWait{v: copyVal(val), vc: e.snapVC()}
+	c.sendq = append(c.sendq, sw)
+	e.wake() // a blocked receiver may take it at once
+	e.block(func() bool { return sw.taken }, "send on unbuffered channel without receiver")
 }
 
 func (e *Exec) chanRecv(v Value, commaOk bool) Value {
 	if op, ok := v.(*OpaqueV); ok && op.kind == "donechan" {
 		c := op.data.(*OpaqueV)
-		if e.ctxCause(c.id) == 0 {
-			panic(threadBlocked{})
-		}
+		e.block(func() bool { return e.ctxCause(c.id) != 0 }, "receive from Done() of a live context")
 		e.events = append(e.events, Event{Kind: "recv-done", Args: []Value{op}})
 		e.acquire(e.ctxRel[e.ctxCause(c.id)])
+		if commaOk {
+			return TupleV{&StructV{}, e.st.False}
+		}
 		return &StructV{}
 	}
-	e.unsupported("channel receive")
-	return nil
+	cv, ok := v.(*ChanV)
+	if !ok {
+		e.unsupported("receive from this channel value")
+	}
+	if cv.c == nil {
+		e.block(func() bool { return false }, "receive from nil channel")
+	}
+	c := cv.c
+	e.block(func() bool { return len(c.buf) > 0 || c.sender() != nil || c.closed }, "receive from empty channel")
+	val, okv := e.chanTake(c)
+	e.wake()
+	if commaOk {
+		return TupleV{val, e.st.Bool(okv)}
+	}
+	return val
+}
+
+func (e *Exec) chanTake(c *ChanObj) (Value, bool) {
+	e.events = append(e.events, Event{Kind: "chan-recv"})
+	switch {
+	case len(c.buf) > 0:
+		it := c.buf[0]
+		c.buf = c.buf[1:]
+		e.acquire(it.vc)
+		return it.v, true
+	case c.sender() != nil:
+		sw := c.sender()
+		sw.taken = true
+		e.acquire(sw.vc)
+		return sw.v, true
+	}
+	e.acquire(c.rel)
+	return copyVal(c.zero), false
+}
+
+func (e *Exec) chanClose(v Value) {
+	cv, ok := v.(*ChanV)
+	if !ok || cv.c == nil {
+		e.mustHold(e.st.False, "close of nil channel", "")
+	}
+	if cv.c.closed {
+		e.mustHold(e.st.False, "close of closed channel", "")
+	}
+	cv.c.closed = true
+	cv.c.rel = e.release(cv.c.rel)
+	e.wake()
+}
+
+// selectOp: cases that can proceed are "ready"; several ready cases are chosen
+// among nondeterministically (a fresh symbolic choice, both explored).
+func (e *Exec) selectOp(fr *frame, x *ssa.Select) Value {
+	type cs struct {
+		send bool
+		ch   Value
+		val  Value
+	}
+	cases := make([]cs, len(x.States))
+	for i, st := range x.States {
+		cases[i] = cs{send: st.Dir == types.SendOnly, ch: e.get(fr, st.Chan)}
+		if st.Send != nil {
+			cases[i].val = e.get(fr, st.Send)
+		}
+	}
+	ready := func(i int) bool {
+		c := cases[i]
+		if op, ok := c.ch.(*OpaqueV); ok && op.kind == "donechan" {
+			return e.ctxCause(op.data.(*OpaqueV).id) != 0
+		}
+		cv, ok := c.ch.(*ChanV)
+		if !ok {
+			e.unsupported("select on this channel value")
+		}
+		if cv.c == nil {
+			return false
+		}
+		if c.send {
+			return cv.c.cap > 0 && len(cv.c.buf) < cv.c.cap
+		}
+		return len(cv.c.buf) > 0 || cv.c.sender() != nil || cv.c.closed
+	}
+	anyReady := func() bool {
+		for i := range cases {
+			if ready(i) {
+				return true
+			}
+		}
+		return false
+	}
+	if x.Blocking {
+		e.block(anyReady, "select without ready case")
+	}
+	chosen := -1
+	var rd []int
+	for i := range cases {
+		if ready(i) {
+			rd = append(rd, i)
+		}
+	}
+	if len(rd) > 0 {
+		chosen = rd[0]
+		for k := 1; k < len(rd); k++ {
+			e.nondetSeq++
+			if e.Branch(e.st.Var(fmt.Sprintf("select.choice%d", e.nondetSeq), 0)) {
+				chosen = rd[k]
+			}
+		}
+	}
+	res := TupleV{e.c64(int64(chosen)), e.st.False}
+	for i, st := range x.States {
+		if st.Dir != types.RecvOnly {
+			continue
+		}
+		et := st.Chan.Type().Underlying().(*types.Chan).Elem()
+		var val Value = e.zero(et)
+		if i == chosen {
+			r := e.chanRecv(cases[i].ch, true).(TupleV)
+			val, res[1] = r[0], r[1]
+			if _, isOp := cases[i].ch.(*OpaqueV); isOp {
+				val = e.zero(et)
+			}
+		}
+		res = append(res, val)
+	}
+	if chosen >= 0 && cases[chosen].send {
+		e.chanSend(cases[chosen].ch, cases[chosen].val)
+	}
+	return res
 }
 
 // ---------------------------------------------------------------------------
